@@ -270,3 +270,12 @@ Proof.
     by (vm_compute; reflexivity).
   rewrite H. reflexivity.
 Qed.
+
+Lemma table_checks :
+  table_complete_for order_definitions = true /\
+  table_case_consistent_for order_definitions = true /\
+  table_curves_param_plain_for order_definitions = true.
+Proof. exact (conj table_complete_ok (conj table_case_consistent_ok table_curves_param_plain_ok)). Qed.
+
+Lemma upper_facts m : upper (upper m) = upper m /\ upper (lower m) = upper m.
+Proof. split; [apply upper_idem|apply upper_lower]. Qed.
